@@ -123,6 +123,13 @@ class LimitMonitor(hist.Monitor):
         else:
             if k == "transfer":
                 self._infeasible_transfer_step(eng, op, out, det)
+                vs = [float(x) for x in flat_f(dec(op["vol"]))]
+                if (eng.case["worklist"].get("auto_split", True) and any(v == math.inf for v in vs)
+                        and all(v == v and v >= 0 for v in vs)):
+                    # an infinite volume cannot be taken from / put into any well: with automatic splitting nothing but
+                    # the volume limits can refuse it
+                    ctx.count("transfer_of_an_infinite_volume")
+                    ctx.check("infinite_transfer_is_refused_as_a_volume_violation", is_vv, det)
             if is_vv:
                 self.rejected += 1
                 ctx.count("limit_reached_via:" + k)
